@@ -482,7 +482,7 @@ def gen_thermal_mesh(rng, n=None, two_feeders=None, max_sections=3):
     return {"fluid": "water", "junctions": js, "elements": els, "heating": {"source": "passive"}}
 
 
-def add_standby(spec, rng, prob=0.6):
+def add_standby(spec, rng, prob=0.6, controllers=False):
     """Parallel stand-by machines: an out-of-service pump / compressor of another type or ratio beside a running one, created
     before or after it (the row order of active and inactive elements differs from case to case)."""
     els = []
@@ -493,6 +493,9 @@ def add_standby(spec, rng, prob=0.6):
             twin = dict(e, name=e["name"] + "_standby", std_type=str(rng.choice([t for t in PUMP_TYPES if t != e["std_type"]])), in_service=False)
         elif e["kind"] == "compressor" and e.get("in_service", True) and rng.random() < prob:
             twin = dict(e, name=e["name"] + "_standby", pressure_ratio=e["pressure_ratio"] + 0.3, in_service=False)
+        elif e["kind"] == "press_control" and e.get("in_service", True) and controllers and rng.random() < prob:
+            # duty / stand-by controllers on one controlled junction; the disabled one keeps control_active and another set-point
+            twin = dict(e, name=e["name"] + "_standby", controlled_p_bar=e["controlled_p_bar"] * 0.8, in_service=False)
         if twin is not None and rng.random() < 0.6:
             els += [twin, e]
         elif twin is not None:
